@@ -11,7 +11,7 @@ HOOKS = {
 ENGINES = [
     {"name": "tlc", "path": "/verif/lib/vlib/tlc.py", "kind_free_text": "TLC 1.8 explicit-state model checker over spec/*.tla",
      "serves_properties": []},
-    {"name": "harness-agent", "path": "/verif/harness/agent", "serves_properties": ["C01", "C02", "C03", "C04", "C05", "C07", "C10", "C11", "C13", "C14", "C15", "C16", "C18", "C19"],
+    {"name": "harness-agent", "path": "/verif/harness/agent", "serves_properties": ["C01", "C02", "C03", "C04", "C05", "C07", "C10", "C11", "C12", "C13", "C14", "C15", "C16", "C18", "C19"],
      "kind_free_text": "cargo crate compiling /repo/proxy_agent/src through symlinks with the verif cfg; drivers: "
                        "function tables, proxy rig (real ProxyServer + mock hosts in a netns), disk, ..."},
     {"name": "harness-ebpf", "path": "/verif/harness/ebpf", "serves_properties": ["C06"],
@@ -28,6 +28,12 @@ NOTES = ("Every check: bin/check <id> --tier quick|thorough. TLA+ specs in spec/
 NOT_APPLICABLE = {}
 
 CHECKS = {
+    "C12": {
+        "text": "KeySecret.tla is a taint model of every flow of a value obtained from the host's key endpoint (key file, MACs, key-keeper status message -> logs/events/status.json/provision answers, signing errors -> connection log) with the key-directory steps; TLC checks NoLeak and AclBeforeFirstKeyFile for the design with withheld error texts and exhibits the leaking histories of the design that quotes the key. The real key keeper, proxy, status task, event logger and event reader run against a scripted mock WireServer issuing CANARY secrets through every history class of the model (latch, rotation, non-hex key, undeserialisable key reply, local fetch of a bad key, host errors, disable) while clients send proxied requests and /provision queries; every output (log, event, status, tag and rule-dump files, stdout/stderr, every client response, every host request) is scanned for every rendering of every canary and the key-directory system calls are read from strace; TLC validates the sink and fs events against KeySecretTrace.tla.",
+        "note": "Absence is established for the histories of one scripted run covering the model's classes and for the sinks enumerated; /dev/console cannot be captured here.",
+        "technique": "TLA+ taint spec + TLC model checking; canary-secret conformance run on the real tasks; strace ordering; impl->spec trace validation",
+        "design_ref": "DESIGN.md §3 C12",
+    },
     "C13": {
         "text": "RobustCut.tla defines the required truncation (total, whole characters, at most N bytes) and TLC enumerates every way up to 6 UTF-8 characters of widths 1-4 can straddle a byte cut; Robust.tla model-checks the service claim (every hostile input class leaves listener and tasks alive, every request answered - liveness). Each cut vector is padded to the real constants and fed to the real truncation sites (event message 4096, module status 1024); the connection-summary cut is reached through real caller processes whose command lines carry 2/3/4-byte characters at all four alignments; obs-text header values, repeated headers, very long URLs are sent to the real server; odd-length UTF-16, long non-ASCII and wrong-content-type replies are served to the real host clients; the log-line header is exercised 2*10^6 times. A process-wide panic hook records every panic; TLC validates the recorded input/outcome events against RobustTrace.tla (no panic, answered, follow-up probe served, status still published).",
         "note": "Inputs are the enumerated classes, not all byte strings; the clock-dependent log-header site is covered by repetition; Windows-only code not covered.",
